@@ -107,6 +107,15 @@ def install_store_events() -> None:
     FlightServer.download_table = staticmethod(download_table)  # type: ignore[method-assign]
 
 
+def _exc_line(e: Any) -> str:
+    import re
+    txt = " ".join(str(e).replace("\\n", " ").split())
+    hits = re.findall(r"(?:KeyError|ValueError|TypeError|IOError|ArrowInvalid)[^|]{0,170}", txt)
+    first = re.search(r"Feature '[^']*' failed with[^|]{0,200}", txt)
+    r = first.group(0) if first else (hits[0] if hits else txt[-260:])
+    return re.split(r" (?:The above exception|During handling|Traceback)", r)[0][:200]
+
+
 def family(big: bool, rng: random.Random) -> List[Dict[str, Any]]:
     pairs = [(x, y) for x, y in itertools.product(daggen.CFWS, repeat=2) if x != y]
     specs = [daggen.gen_two_uploads(rng, x, y, "join", slow=sl) for x, y in pairs for sl in ((0, 150, 400) if big else (150,))]
@@ -134,7 +143,7 @@ def observe(spec: Dict[str, Any], fs: Any, sink_path: str) -> Dict[str, Any]:
     finally:
         mp_obs.CUR["sink"] = None
     out["mp"] = m["status"]
-    out["mp_exc"] = " ".join(str(m.get("exc")).split())[-260:] if m["status"] != "ok" else None
+    out["mp_exc"] = _exc_line(m.get("exc")) if m["status"] != "ok" else None
     out["same"] = bool(m["status"] == "ok" and base is not None and canon_result(m["result"]) == base)
     ev = sink.read()
     sink.reset()
